@@ -67,7 +67,8 @@ pub fn simple(v: &Value, ctx: &Ctx) -> Result<SimpleVal, String> {
                     atom[1].as_u64().unwrap(),
                     Box::new(PV::U64(atom[2].as_u64().unwrap())),
                 ))),
-                _ => Err(format!("simple: unsupported atom {}", atom)),
+                // any other atom with deterministic bytes: a leaf holding that CBOR item
+                _ => ctx.atom_cbor(atom).map(|b| SimpleVal::P(PV::Raw(b))).map_err(|e| e.0),
             }
         }
         _ => Err(format!("simple: not a simple value {}", v)),
@@ -156,6 +157,10 @@ impl<'a> Exec<'a> {
             }
             other => return Err(format!("build: cannot build {}", other)),
         })
+    }
+
+    fn build_or_kv(&mut self, v: &Value, _regs: &Regs) -> Result<Envelope, String> {
+        self.build(v)
     }
 
     fn run(&mut self, step: &Value, regs: &Regs) -> Result<Outcome, String> {
@@ -713,6 +718,111 @@ impl<'a> Exec<'a> {
                 };
                 res(e.add_assertion_envelope(Envelope::new_assertion(known_values::ATTACHMENT, obj)))
             }
+
+            // ---- expressions ----
+            "expression" | "request" => {
+                use bc_envelope::prelude::*;
+                let f = a(0);
+                let function = if f[0].as_str() == Some("k") {
+                    if var % 2 == 0 { Function::new_known(f[1].as_u64().unwrap(), None) } else { Function::new_known(f[1].as_u64().unwrap(), Some("named".into())) }
+                } else if var % 4 < 2 {
+                    Function::new_named(f[1].as_str().unwrap())
+                } else {
+                    Function::new_static_named(match f[1].as_str().unwrap() { "f" => "f", "1" => "1", _ => "other" })
+                };
+                let mk_param = |q: &Value| -> Parameter {
+                    if q[0].as_str() == Some("k") { Parameter::new_known(q[1].as_u64().unwrap(), None) } else { Parameter::new_named(q[1].as_str().unwrap()) }
+                };
+                if op == "expression" {
+                    let mut x = Expression::new(function);
+                    for p in a(1).as_array().ok_or("params")? {
+                        let v = reg(regs, &p[1])?.clone();
+                        x = if var % 3 == 0 { x.with_optional_parameter(mk_param(&p[0]), Some(v)) } else { x.with_parameter(mk_param(&p[0]), v) };
+                    }
+                    Outcome::Env(x.into())
+                } else {
+                    let id = bc_components::ARID::from_data([a(2).as_u64().unwrap() as u8; 32]);
+                    let mut x = Request::new(function, id);
+                    for p in a(1).as_array().ok_or("params")? {
+                        let v = reg(regs, &p[1])?.clone();
+                        x = x.with_parameter(mk_param(&p[0]), v);
+                    }
+                    let note = a(3).as_str().unwrap_or("");
+                    if !note.is_empty() || var % 2 == 0 {
+                        x = x.with_note(note);
+                    }
+                    if let Some(d) = date_of(a(4)) {
+                        x = x.with_date(d);
+                    }
+                    Outcome::Env(x.into())
+                }
+            }
+            "response" => {
+                use bc_envelope::prelude::*;
+                let id = bc_components::ARID::from_data([a(1).as_u64().unwrap() as u8; 32]);
+                let payload = self.build_or_kv(a(2), regs)?;
+                let default_ok = tag_of(a(2)) == "kv" && a(2)[1].as_u64() == Some(103);
+                let default_unknown = tag_of(a(2)) == "kv" && a(2)[1].as_u64() == Some(17);
+                let r = match a(0).as_str().unwrap_or("") {
+                    "success" => if default_ok && var % 2 == 0 { Response::new_success(id) } else { Response::new_success(id).with_result(payload) },
+                    "failure" => if default_unknown && var % 2 == 0 { Response::new_failure(id) } else { Response::new_failure(id).with_error(payload) },
+                    _ => if default_unknown && var % 2 == 0 { Response::new_early_failure() } else { Response::new_early_failure().with_error(payload) },
+                };
+                Outcome::Env(r.into())
+            }
+            "event" => {
+                use bc_envelope::prelude::*;
+                let content = reg(regs, a(0))?.clone();
+                let id = bc_components::ARID::from_data([a(1).as_u64().unwrap() as u8; 32]);
+                let mut x: Event<Envelope> = Event::new(content, id);
+                let note = a(2).as_str().unwrap_or("");
+                if !note.is_empty() || var % 2 == 0 {
+                    x = x.with_note(note);
+                }
+                if let Some(d) = date_of(a(3)) {
+                    x = x.with_date(d);
+                }
+                Outcome::Env(x.into())
+            }
+            "malform" => {
+                let e = reg(regs, a(0))?;
+                let kind = a(1).as_str().ok_or("kind")?;
+                let drop_pred = |e: &Envelope, kv: u64| -> Envelope {
+                    let mut x = e.clone();
+                    for asn in e.assertions_with_predicate(KnownValue::new(kv)) {
+                        x = x.remove_assertion(asn);
+                    }
+                    x
+                };
+                let raw = |bytes: Vec<u8>| Envelope::new(dcbor::CBOR::try_from_data(bytes).unwrap());
+                Outcome::Env(match kind {
+                    "drop_body" => drop_pred(e, 100),
+                    "second_body" => e.add_assertion(known_values::BODY, raw(self.ctx.atom_cbor(&serde_json::json!(["fn", "k", 2])).map_err(|e| e.0)?)),
+                    "retag_subject" => {
+                        let is_ev = e.subject().tagged_cbor().to_cbor_data().windows(3).any(|w| w == [0xd9, 0x9c, 0x5a]);
+                        let atom = if is_ev { serde_json::json!(["reqid", 1]) } else { serde_json::json!(["evid", 1]) };
+                        e.replace_subject(raw(self.ctx.atom_cbor(&atom).map_err(|e| e.0)?))
+                    }
+                    "add_error" => e.add_assertion(known_values::ERROR, "x"),
+                    "add_result" => e.add_assertion(known_values::RESULT, "x"),
+                    "drop_result" => drop_pred(e, 101),
+                    "drop_error" => drop_pred(e, 102),
+                    "second_note" => e.add_assertion(known_values::NOTE, "n").add_assertion(known_values::NOTE, "m"),
+                    "note_not_string" => drop_pred(e, 4).add_assertion(known_values::NOTE, known_values::IS_A),
+                    "date_not_date" => drop_pred(e, 16).add_assertion(known_values::DATE, "x"),
+                    "subject_other_kv" => e.replace_subject(raw(self.ctx.atom_cbor(&serde_json::json!(["respunknown", 103])).map_err(|e| e.0)?)),
+                    "drop_content" => drop_pred(e, 108),
+                    "second_content" => e.add_assertion(known_values::CONTENT, "x"),
+                    "salted_body" => {
+                        let bodies = e.assertions_with_predicate(known_values::BODY);
+                        match bodies.first() {
+                            Some(b) => drop_pred(e, 100).add_assertion_envelope_salted(b.clone(), true).map_err(|e| e.to_string())?,
+                            None => e.clone(),
+                        }
+                    }
+                    _ => return Err(format!("malform kind {}", kind)),
+                })
+            }
             "decode_wire" => {
                 let bytes = self.ctx.wire(a(0)).map_err(|e| e.0)?;
                 match var % 2 {
@@ -765,6 +875,15 @@ impl<'a> Exec<'a> {
                 Outcome::Panic(msg)
             }
         }
+    }
+}
+
+pub fn date_of(v: &Value) -> Option<dcbor::Date> {
+    match v.as_str().unwrap_or("") {
+        "int" => Some(dcbor::Date::from_timestamp(1_700_000_000.0)),
+        "frac" => Some(dcbor::Date::from_timestamp(0.5)),
+        "neg" => Some(dcbor::Date::from_timestamp(-86400.0)),
+        _ => None,
     }
 }
 
